@@ -68,6 +68,89 @@ def all_instances(state):
     return {(tuple(s["map_key"]), e["mk"]): e["i"] for s in state["services"] for e in s["instances"]}
 
 
+class Ownership:
+    """Who owns which address, reconstructed from the op history ALONE (never from the
+    implementation's client_instance_set or the client id it stores): which (service, address) each
+    live gRPC connection has registered, whether the registration is ephemeral, and which
+    connections have already been removed.  Presence is pruned with the dumped instance map only
+    for removals that do not depend on ownership (time-outs of HTTP instances)."""
+
+    def __init__(self):
+        self.owner = {}     # address -> gRPC connection id, 0 = none (HTTP / raft)
+        self.fg = {}        # address -> registered over gRPC (kept by an ephemeral HTTP overwrite)
+        self.eph = {}       # address -> ephemeral
+        self.dead = set()   # connections whose RemoveClient was processed
+        self.seen = set()   # connections that ever registered something
+
+    def write(self, key, i, tag):
+        exists = key in self.eph
+        if i["fg"]:
+            self.fg[key] = True
+            self.owner[key] = i["cl"]
+            if i["cl"]:
+                self.seen.add(i["cl"])
+        elif exists and i["ep"] and self.fg.get(key):
+            pass                                    # HTTP overwrite keeps gRPC ownership
+        else:
+            self.fg[key] = False
+            self.owner[key] = 0
+        if not exists or tag is None:
+            self.eph[key] = i["ep"]
+        elif any(tag[:4]) and tag[3]:
+            self.eph[key] = i["ep"]
+
+    def drop(self, key):
+        for d in (self.owner, self.fg, self.eph):
+            d.pop(key, None)
+
+    def apply(self, op):
+        """effect of one op; returns for a client removal the set of addresses that must disappear"""
+        n = op[0]
+        if n == "upd":
+            self.write((tuple(op[1]), op[2]["k"]), op[2], op[3])
+        elif n == "batch":
+            for k, i in op[1]:
+                self.write((tuple(k), i["k"]), i, None)
+        elif n == "snap":
+            for k, i in op[2]:
+                self.write((tuple(k), i["k"]), i, None)
+        elif n == "raft":
+            if not op[3]["ep"]:
+                self.write((tuple(op[2]), op[3]["k"]), dict(op[3], fg=False, fc=0, cl=0), None)
+        elif n in ("del", "delbatch"):
+            for k, i in ([(op[1], op[2])] if n == "del" else op[1]):
+                key = (tuple(k), i["k"])
+                if key in self.eph and not (self.eph[key] and i["cl"] != 0 and self.owner.get(key) != i["cl"]):
+                    self.drop(key)
+        elif n == "raftrm":
+            self.drop((tuple(op[1]), op[2]))
+        elif n == "diff":
+            gone = []
+            for c, theirs in op[2]:
+                if c in self.seen and c not in self.dead:
+                    th = set((tuple(k), ik) for k, ik in theirs)
+                    gone += [key for key, o in self.owner.items() if o == c and key not in th]
+            for key in gone:
+                self.drop(key)
+        elif n in ("rmclient", "rmclient_cluster", "rmclients"):
+            cls = [op[1]] if n != "rmclients" else list(op[1])
+            must = set()
+            for c in cls:
+                if c == 0 or c in self.dead:
+                    continue
+                self.dead.add(c)
+                for key, o in list(self.owner.items()):
+                    if o == c and self.eph.get(key):
+                        must.add(key)
+                        self.drop(key)
+            return must
+        return None
+
+    def prune(self, present):
+        for key in [k for k in self.eph if k not in present]:
+            self.drop(key)
+
+
 def oracle_step(op, prev, cur, out):
     """returns list of (key, what) for one op, from the implementation's observations only"""
     bad = []
@@ -146,6 +229,16 @@ def nasty_cases(rng):
           ["upd", sk, mk(1, ep=True, fg=True, cl=1), nc.grpc_tag(mk(1)), False],
           ["upd", sk2, mk(0, ep=True, fg=True, cl=2), nc.grpc_tag(mk(0)), False], ["rmclient", 1], ["qall", sk], ["qall", sk2],
           ["rmclient", 2], ["qall", sk2]])
+    # an HTTP heartbeat / re-registration over a gRPC-owned address keeps the ownership: the instance still goes when
+    # the connection closes (the record must not be dropped by the overwrite)
+    case([["upd", sk, mk(0, fg=True, cl=1), nc.grpc_tag(mk(0)), False], ["upd", sk, mk(0), list(nc.TAG_BEAT), False],
+          ["upd", sk, mk(0, md=1), list(nc.TAG_ALL), False], ["upd", sk2, mk(0, fg=True, cl=1), nc.grpc_tag(mk(0)), False],
+          ["upd", sk2, mk(0), [True, True, True, False, True], False], ["qall", sk], ["rmclient", 1], ["qall", sk], ["qall", sk2]])
+    # ORPHAN_FLIP (observation, outside the statement): a persistent instance survives the end of its connection, is
+    # then flipped to ephemeral over HTTP and keeps the id of the dead connection; removing the dead id again does nothing
+    case([["upd", sk, mk(0, ep=False, fg=True, cl=1), nc.grpc_tag(mk(0)), False], ["upd", sk, mk(1, fg=True, cl=2), nc.grpc_tag(mk(1)), False],
+          ["rmclient", 1], ["upd", sk, mk(0, ep=True), [False, False, False, True, True], False], ["qone", sk, 0], ["rmclient", 1],
+          ["qone", sk, 0], ["rmclient", 2], ["qall", sk]])
     # thresholds x healthy/unhealthy mixes x healthy_only
     for q in (0, 1, 2, 3, 4):
         ops = [["svc", sk, q]]
@@ -176,11 +269,12 @@ def random_case(rng, nops):
         if x < 0.25:
             ops.append(g.query())
         elif x < 0.33:
-            ops.append(["rmclient", rng.choice(g.clients + [11])])
+            ops.append(["rmclient", rng.choice(g.clients + g.remote[:1])])
         elif x < 0.36:
             ops.append(["svc", g.sk(), rng.choice([0, 1, 2, 3, 4])])
         else:
             ops.append(g.op())
+        g.retire(ops[-1])
     return {"cfg": dict(nc.CFG), "ops": ops, "dump": "all", "services": [list(k) for k in g.services]}
 
 
@@ -202,6 +296,7 @@ def run(chk, replay=None):
     impl = lib.harness_run_parallel("naming", cases)
 
     n_eval = 0
+    n_indep = 0
     nontrivial = set()
     hist = {}
     t0_state = {"services": [], "clients": [], "index": {"size": 0, "ns": []}, "empty_set": [], "meta_set": [], "range": None}
@@ -212,8 +307,21 @@ def run(chk, replay=None):
         if not nc.in_scope_case(c):
             continue
         prev = t0_state
+        own = Ownership()
         for ix, (op, st) in enumerate(zip(c["ops"], r["steps"])):
             cur = nc.canon_impl_state(st["st"])
+            must = own.apply(op)
+            if must is not None:
+                b, a = all_instances(prev), all_instances(cur)
+                must = set(k for k in must if k in b)
+                gone = set(b) - set(a)
+                n_indep += 1
+                if gone != must:
+                    what = ("connection(s) %s closed: instances registered by it as ephemeral (from the op history) = %s, "
+                            "instances that disappeared = %s" % (op[1], sorted(must), sorted(gone)))
+                    chk.classify("C12:disconnect-history", "op %d %s: %s" % (ix, op[0], what),
+                                 {"suite": "naming", "case": dict(c, ops=c["ops"][:ix + 1]), "what": what})
+            own.prune(all_instances(cur))
             if op[0] in ("qlist", "qstr", "qinfo", "qone", "upd", "del", "rmclient", "rmclient_cluster", "rmclients"):
                 n_eval += 1
                 hist[op[0]] = hist.get(op[0], 0) + 1
@@ -234,6 +342,16 @@ def run(chk, replay=None):
                         nontrivial.add(("del", i["ep"], i["cl"], op[2]["cl"]))
             prev = cur
 
+    if not replay:
+        # the orphan-flip observation (third structured history)
+        try:
+            st = impl[2]["steps"]
+            chk.notes["orphan_flip_observation"] = {
+                "after_flip": st[4]["out"], "after_second_RemoveClient_of_the_dead_id": st[6]["out"],
+                "meaning": "ephemeral instance bound to a connection that no longer exists; it is under neither the heartbeat clock "
+                           "(from_grpc) nor any live connection; outside C12_disconnect_removes_ALL_own_ephemeral (alive_b false)"}
+        except Exception:
+            pass
     mism = 0
     try:
         vals = lib.coq_eval_sharded("c12", nc.HEADER, [nc.model_expr(c, hashes) for c in cases],
@@ -268,6 +386,7 @@ def run(chk, replay=None):
                        "(query kind, healthy_only, threshold, #instances, #healthy, #enabled) with >1 instance, distinct client-set at "
                        "a disconnect, distinct (ephemeral, owner, caller) at a deregistration")
     chk.cov["samples"] = cases[:2] + [cases[len(cases) // 2]]
-    chk.cov["input_distribution"] = {"histories": len(cases), "judged_ops_by_kind": hist, "model_impl_mismatches": mism}
+    chk.cov["input_distribution"] = {"histories": len(cases), "judged_ops_by_kind": hist, "model_impl_mismatches": mism,
+                                     "disconnects_judged_from_history_alone": n_indep}
     chk.assumptions += ["thresholds exactly representable (k/4), binary32 rounding not modelled", "cluster filter string empty (the code ignores it)",
                         "instances not from gRPC carry no client id (op_wf)"]
